@@ -164,7 +164,11 @@ def c15(ctx):
     mc(ctx, "ArMC.tla", "ArMC_%s.cfg" % t, what="Ar.Next machine: safe and bounded on damaged archives")
     g1 = gen(ctx, "ArGen.tla", "ArGen_corrupt_%s.cfg" % t, ctx.path("corrupt.ndjson"), what="corrupted archives")
     r = hgen(ctx, "C15", ctx.path("rand.ndjson"))
-    judge(ctx, "C15", vf.cat(ctx.path("vec.ndjson"), g1, r), what="iteration safety on damaged archives")
+    parts = [g1, r]
+    if t == "thorough":
+        parts.append(vf.fuzz(ctx, "FuzzAr", "ar", 90, ctx.path("fuzz-ar.ndjson")))
+        parts.append(vf.fuzz(ctx, "FuzzDeb", "deb", 90, ctx.path("fuzz-deb.ndjson")))
+    judge(ctx, "C15", vf.cat(ctx.path("vec.ndjson"), *parts), what="iteration safety on damaged archives")
     ctx.exhaustive = True
     ctx.assumptions += ["behaviour of the third-party xz/lzma/bzip2/zstd decoders on hostile streams is outside the claim "
                         "(the property's own quantifier): damaged packages use stored or gzip members"]
@@ -273,6 +277,7 @@ def c17(ctx):
 def c20(ctx):
     t = ctx.tier
     mc(ctx, "Upload.tla", "Upload_%s.cfg" % t, what="ControlLast, ErrorMeansAbsent, RemoveLast, SuccessPost, Confined in every state")
+    vf.tlaps(ctx, "proofs/UploadProof.tla")      # ControlLast / ErrorMeansAbsent for an arbitrary number of listed files
     g1 = gen(ctx, "UploadGen.tla", "UploadGen_%s.cfg" % t, ctx.path("up.ndjson"), what="upload scenarios")
     judge(ctx, "C20", g1, what="inotify traces vs upload model")
     ctx.exhaustive = True
@@ -371,6 +376,10 @@ def c18(ctx):
     with open(vec) as f, open(seq, "w") as a, open(conc, "w") as b:
         for line in f:
             (b if '"k":"conc"' in line else a).write(line)
+    if ctx.tier == "thorough":
+        fz = vf.fuzz(ctx, "FuzzParsers", "parsers", 180, ctx.path("fuzz-parsers.ndjson"))
+        with open(seq, "a") as a, open(fz) as f:      # (before the final "recheck" vector would be nicer; order does not matter)
+            a.write(f.read())
     judge(ctx, "C18", seq, what="totality, value xor error, determinism")
     # concurrent part: race-enabled build, stateful validation
     trace = ctx.path("conc-trace.ndjson")
